@@ -190,14 +190,66 @@ func (eng *Engine) runProperty(cfg *PropConfig, tier string, timeout int, work s
 	return pr
 }
 
+// loadKnownFindings parses /verif/known_findings.txt (never written at run time).
 func loadKnownFindings() []KnownFinding {
 	var kf []KnownFinding
-	data, err := os.ReadFile(filepath.Join(verifDir(), "known_findings.json"))
+	data, err := os.ReadFile(filepath.Join(verifDir(), "known_findings.txt"))
 	if err != nil {
 		return nil
 	}
-	json.Unmarshal(data, &kf)
+	for _, line := range strings.Split(string(data), "\n") {
+		line = strings.TrimSpace(line)
+		if line == "" || strings.HasPrefix(line, "#") {
+			continue
+		}
+		var k KnownFinding
+		switch {
+		case strings.HasPrefix(line, "open:"):
+			k.Status = "open"
+			rest := strings.TrimSpace(line[5:])
+			what := ""
+			if i := strings.Index(rest, "::"); i >= 0 {
+				what = strings.TrimSpace(rest[i+2:])
+				rest = rest[:i]
+			}
+			k.What = what
+			for _, f := range splitKV(rest) {
+				switch {
+				case strings.HasPrefix(f, "property="):
+					k.Property = f[9:]
+				case strings.HasPrefix(f, "obligation="):
+					k.Obligation = f[11:]
+				case strings.HasPrefix(f, "witness="):
+					k.Witness = f[8:]
+				}
+			}
+		case strings.HasPrefix(line, "fixed:"):
+			k.Status = "fixed"
+			fs := strings.Fields(line[6:])
+			if len(fs) >= 2 {
+				k.Property = strings.TrimPrefix(fs[0], "property=")
+				k.Commit = fs[1]
+				k.What = strings.Join(fs[2:], " ")
+			}
+		default:
+			continue
+		}
+		kf = append(kf, k)
+	}
 	return kf
+}
+
+// splitKV splits "a=b c=d e f" into key=value fields where values may contain spaces.
+func splitKV(s string) []string {
+	var out []string
+	for _, w := range strings.Fields(s) {
+		if strings.Contains(w, "=") && (strings.HasPrefix(w, "property=") || strings.HasPrefix(w, "obligation=") || strings.HasPrefix(w, "witness=")) {
+			out = append(out, w)
+		} else if len(out) > 0 {
+			out[len(out)-1] += " " + w
+		}
+	}
+	return out
 }
 
 func (pr *propResult) finish(eng *Engine, cfg *PropConfig, tier string, seed int, start time.Time) {
@@ -261,7 +313,7 @@ func (pr *propResult) finish(eng *Engine, cfg *PropConfig, tier string, seed int
 		isKnown := false
 		for _, k := range known {
 			if k.Property == id && k.Status == "open" && k.Obligation == stripPathLabel(n) {
-				fmt.Printf("KNOWN-FINDING: property=%s %s %s\n", id, k.Obligation, k.Witness)
+				fmt.Printf("KNOWN-FINDING: property=%s %s witness=%s %s\n", id, k.Obligation, k.Witness, k.What)
 				isKnown = true
 			}
 		}
